@@ -49,7 +49,7 @@ ASSUMPTIONS = [
     "keep with a consuming post routine and context forms +0 (one slot needed while they run)",
     "min_fidelity_all_at_end variants (run-time dependent freeing) are not generated",
 ]
-PROBES = ["keep-min-fidelity", "keep-min-fidelity-retried", "keep-min-fidelity-never-reached", "id-reused-after-measure", "id-reused-after-free", "epr-qubit-mapped", "nv-config", "nv-transpiler", "generic",
+PROBES = ["measure-into-register", "keep-min-fidelity", "keep-min-fidelity-retried", "keep-min-fidelity-never-reached", "id-reused-after-measure", "id-reused-after-free", "epr-qubit-mapped", "nv-config", "nv-transpiler", "generic",
           "keep-plain", "keep-sequential-post", "keep-context", "create-role", "recv-role", "budget-1", "budget-5",
           "nv-relocation-of-id0"]
 
@@ -61,6 +61,7 @@ def gen_ops(ch: Choices, cap: int, budget: int, avoid: set, calm: bool, nv: bool
     ops: List[tuple] = []
     live: List[str] = []
     nq = 0
+    regmeas = 0      # register measurements since the last flush (a subroutine has 16 M registers)
     for _ in range(n):
         kinds = []
         w = []
@@ -102,6 +103,9 @@ def gen_ops(ch: Choices, cap: int, budget: int, avoid: set, calm: bool, nv: bool
             ops.append(("two", ch.pick(["cnot", "cphase"]), live[i], live[j]))
         elif k in ("measure", "free"):
             q = live.pop(ch.draw(len(live), "q"))
+            if k == "measure" and regmeas < 10 and ch.flag(1, 3, "regmeas"):
+                k = "measure_reg"     # outcome kept in a register instead of an array
+                regmeas += 1
             ops.append((k, q))
         elif k == "measure_inplace":
             ops.append(("measure_inplace", live[ch.draw(len(live), "q")]))
@@ -143,6 +147,7 @@ def gen_ops(ch: Choices, cap: int, budget: int, avoid: set, calm: bool, nv: bool
             ops.append(("keep_context", "create" if ch.flag(1, 2, "role") else "recv", m))
         else:
             ops.append(("flush",))
+            regmeas = 0
     for q in live:
         ops.append(("measure", q))
     ops.append(("flush",))
@@ -228,6 +233,11 @@ def run(ch: Choices, opts: Dict[str, Any]) -> Dict[str, Any]:
                     freed_ids.add(qs[op[1]].qubit_id)
                     state.setdefault("how", set()).add(("measure", qs[op[1]].qubit_id))
                     qs[op[1]].measure()
+                elif k == "measure_reg":
+                    freed_ids.add(qs[op[1]].qubit_id)
+                    state.setdefault("how", set()).add(("measure", qs[op[1]].qubit_id))
+                    qs[op[1]].measure(store_array=False)
+                    bump(probes, "measure-into-register")
                 elif k == "measure_inplace":
                     qs[op[1]].measure(inplace=True)
                 elif k == "free":
